@@ -584,6 +584,7 @@ fn oset_run<T: Ord + Clone + std::hash::Hash>(
     let mut regs: HashMap<u32, Oset<T>> = HashMap::new();
     let mut refs: HashMap<u32, BTreeSet<T>> = HashMap::new();
     let mut out: Vec<String> = vec![];
+    let mut shape: usize = 0;
     let parse_list = |s: &str| -> Vec<T> {
         if s.is_empty() || s == "-" {
             vec![]
@@ -612,7 +613,15 @@ fn oset_run<T: Ord + Clone + std::hash::Hash>(
             }
             "from" => {
                 let l = parse_list(w.get(2).copied().unwrap_or(""));
-                regs.insert(r, l.iter().cloned().collect());
+                // The iterator handed over varies in what `size_hint` reports (exact, lower bound 0, …):
+                // the result must not depend on it.
+                shape += 1;
+                let o: Oset<T> = match shape % 3 {
+                    0 => l.iter().cloned().collect(),
+                    1 => l.iter().cloned().filter(|_| true).collect(),
+                    _ => l.chunks(2).flat_map(|c| c.iter().cloned()).collect(),
+                };
+                regs.insert(r, o);
                 refs.insert(r, l.into_iter().collect());
                 out.push(show_set(&regs[&r]));
             }
@@ -624,7 +633,18 @@ fn oset_run<T: Ord + Clone + std::hash::Hash>(
             }
             "ext" => {
                 let l = parse_list(w.get(2).copied().unwrap_or(""));
-                regs.get_mut(&r).unwrap().extend(l.iter().cloned());
+                shape += 1;
+                let reg = regs.get_mut(&r).unwrap();
+                match shape % 5 {
+                    0 => reg.extend(l.iter().cloned()),
+                    1 => reg.extend(l.iter().cloned().filter(|_| true)),
+                    2 => reg.extend(l.chunks(2).flat_map(|c| c.iter().cloned())),
+                    3 => {
+                        let (a, b) = l.split_at(l.len() / 2);
+                        reg.extend(a.iter().cloned().chain(b.iter().cloned().take_while(|_| true)));
+                    }
+                    _ => reg.extend(l.clone()),
+                }
                 refs.get_mut(&r).unwrap().extend(l);
                 out.push(show_set(&regs[&r]));
             }
